@@ -111,6 +111,9 @@ def run(repo: Repo, rep: Report, tier: str) -> None:
     _hc2.report(repo, rep, "R09.6", _hc2.dataclass_fields_contract(repo), "mashumaro.core.meta.code.builder::CodeBuilder.dataclass_fields")
     from ..core import siblings as _sib2
     _sib2.check_own_method_tests(repo, rep, "R14.11")
+    _r07_8(repo, rep)
+    from ..core import helper_contracts as _hc5
+    _hc5.report(repo, rep, "R09.7", _hc5.small_helper_contracts(repo), "mashumaro.core.meta.helpers::get_type_annotations / is_class_var / is_init_var")
 
 def _r07_4(repo: Repo, rep: Report, tier: str) -> None:
     fi = repo.func(M_BUILDER, "CodeBuilder._add_unpack_method_lines")
@@ -203,6 +206,47 @@ def _r07_4(repo: Repo, rep: Report, tier: str) -> None:
             rep.ok("R07.4", inst, {"layout": str(layout), "call": r.describe(ast.unparse(call))})
     rep.floor("R07.4", 6)
 
+
+def _r07_8(repo: Repo, rep: Report) -> None:
+    """R07.8: the from_dict field loop visits the fields in declaration order (the order of get_field_types()), because the
+    positional arguments of the generated cls(...) call are emitted in loop order.  Any re-ordering of that iteration
+    (sorted / reversed / a set) binds values to the wrong constructor parameters."""
+    fi = repo.func(M_BUILDER, "CodeBuilder._add_unpack_method_lines")
+    loops = [n for n in walk_no_nested(fi.node) if isinstance(n, ast.For) and "fname" in ast.unparse(n.target)]
+    if not loops:
+        rep.undecide("R07.8", "field loops of _add_unpack_method_lines not found")
+        return
+    src = None
+    for n in walk_no_nested(fi.node):
+        if isinstance(n, ast.Assign) and any(isinstance(t, ast.Name) and t.id == "field_types" for t in n.targets):
+            src = ast.unparse(n.value)
+
+    def origins(e, depth=0):
+        if isinstance(e, ast.Name) and depth < 3:
+            outs = []
+            for n in walk_no_nested(fi.node):
+                if isinstance(n, (ast.Assign, ast.AnnAssign)):
+                    tg = n.targets if isinstance(n, ast.Assign) else [n.target]
+                    if any(isinstance(t, ast.Name) and t.id == e.id for t in tg) and n.value is not None:
+                        outs += origins(n.value, depth + 1)
+            return outs or [e.id]
+        return [ast.unparse(e)]
+
+    os_ = []
+    for loop in loops:
+        os_ += origins(loop.iter)
+    bad = [o for o in os_ if re.search(r"\b(sorted|reversed|set|frozenset|dict\.fromkeys)\(", o) or ".sort(" in o]
+    for n in walk_no_nested(fi.node):  # an in-place sort of one of the lists the loops run over
+        if isinstance(n, ast.Call) and isinstance(n.func, ast.Attribute) and n.func.attr in ("sort", "reverse") and isinstance(n.func.value, ast.Name) \
+                and any(isinstance(l.iter, ast.Name) and l.iter.id == n.func.value.id for l in loops):
+            bad.append(ast.unparse(n))
+    if bad:
+        rep.violation("R07.8", fi.key, f"the field loop iterates `{bad[0][:70]}`", "positional constructor arguments are emitted in loop order: a re-ordered iteration "
+                      "binds values to the wrong parameters (silently, when the types are compatible)", loc=fi.loc)
+    elif all(re.fullmatch(r"field_types\.items\(\)|self\.get_field_types\(.*\)\.items\(\)|\[\]", o) for o in os_):
+        rep.ok("R07.8", f"the {len(loops)} field loops iterate {sorted(set(os_))} (declaration order; field_types = {src})", None)
+    else:
+        rep.undecide("R07.8", f"field loops iterate {sorted(set(os_))}")
 
 def _r07_5(repo: Repo, rep: Report) -> None:
     # (a) init=False fields are skipped before any emission
@@ -330,3 +374,9 @@ LEVEL_TEXT += _ADD3
 _ADD6 = " Borrowed: R14.11 (a subclass must not run its parent's compiled unpacker)."
 EXPLANATION += _ADD6
 LEVEL_TEXT += _ADD6
+_ADD14 = ' R07.8: the from_dict field loop iterates the fields in declaration order (positional constructor arguments follow it).'
+EXPLANATION += _ADD14
+LEVEL_TEXT += _ADD14
+_ADD18 = ' Borrowed: R09.7.'
+EXPLANATION += _ADD18
+LEVEL_TEXT += _ADD18
